@@ -341,6 +341,9 @@ def refine(st, lin, sign):
     return st2
 
 
+MAX_REFINE_DEPTH = 10
+
+
 def expand(st, row_fn, only=None, depth=0):
     """Rows of one abstract state; comparisons the state leaves open split it into sub-states."""
     rows = row_fn(st)
@@ -351,7 +354,7 @@ def expand(st, row_fn, only=None, depth=0):
         if only is not None and mode not in only:
             continue
         if isinstance(und, NeedSplit):
-            if depth >= 7:
+            if depth >= MAX_REFINE_DEPTH:
                 out.append((case, (mode, False, "", "refinement depth exceeded: " + str(und))))
                 continue
             k = und.lin.key()
